@@ -197,6 +197,50 @@ theorem terminal_ignores_outcomes (en : Bool) (sinks : List Deliver.Sink) :
     List.filter_map]
   all_goals (split <;> simp)
 
+mutual
+theorem syncedOf_clean (c : Deliver.Core) (h : ∀ s ∈ Deliver.sinksOf c, s.writeErr = false) :
+    Deliver.syncedOf c = (Deliver.sinksOf c).map (·.id) := by
+  cases c with
+  | io en sinks =>
+    have : sinks.all (fun s => !s.writeErr) = true := by
+      simp only [List.all_eq_true, Bool.not_eq_true']
+      exact fun s hs => h s (by simpa [Deliver.sinksOf] using hs)
+    simp [Deliver.syncedOf, Deliver.sinksOf, this]
+  | tee cs => simpa [Deliver.syncedOf, Deliver.sinksOf] using syncedOfL_clean cs (by simpa [Deliver.sinksOf] using h)
+  | wrap c => simpa [Deliver.syncedOf, Deliver.sinksOf] using syncedOf_clean c (by simpa [Deliver.sinksOf] using h)
+theorem syncedOfL_clean (cs : List Deliver.Core) (h : ∀ s ∈ Deliver.sinksOfL cs, s.writeErr = false) :
+    Deliver.syncedOfL cs = (Deliver.sinksOfL cs).map (·.id) := by
+  cases cs with
+  | nil => simp [Deliver.syncedOfL, Deliver.sinksOfL]
+  | cons c r =>
+    simp only [Deliver.sinksOfL, List.mem_append] at h
+    simp [Deliver.syncedOfL, Deliver.sinksOfL, syncedOf_clean c (fun s hs => h s (Or.inl hs)),
+      syncedOfL_clean r (fun s hs => h s (Or.inr hs))]
+end
+
+/-- C06 "the built-in IO cores have synced their sinks before control is lost": when no write fails, every sink the
+    entry was handed to has been synced when the terminal hook runs — whatever the composition -/
+theorem clean_sinks_synced_before_terminal (c : Deliver.Core)
+    (h : ∀ s ∈ (Deliver.accepted c).flatMap Deliver.sinksOf, s.writeErr = false) :
+    Deliver.syncedAtTerminal c = ((Deliver.accepted c).flatMap Deliver.sinksOf).map (·.id) := by
+  unfold Deliver.syncedAtTerminal
+  generalize Deliver.accepted c = acs at h
+  induction acs with
+  | nil => simp
+  | cons a r ih =>
+    simp only [List.flatMap_cons, List.mem_append] at h
+    simp [List.flatMap_cons, syncedOf_clean a (fun s hs => h s (Or.inl hs)), ih (fun s hs => h s (Or.inr hs))]
+
+/-- and a failing sink only withholds the sync of ITS OWN io core: the sinks of every other accepting core are synced -/
+theorem sync_withheld_only_by_own_core (en : Bool) (sinks : List Deliver.Sink) (r : List Deliver.Core)
+    (h : ∀ s ∈ Deliver.sinksOfL r, s.writeErr = false) :
+    ∀ s ∈ Deliver.sinksOfL r, s.id ∈ Deliver.syncedOfL (.io en sinks :: r) := by
+  intro s hs
+  simp only [Deliver.syncedOfL, List.mem_append]
+  right; rw [syncedOfL_clean r h]; exact List.mem_map.mpr ⟨s, hs, rfl⟩
+
+example : Deliver.syncedAtTerminal (.tee [.io true [⟨0, true, false⟩, ⟨1, false, false⟩], .io true [⟨2, false, true⟩]]) = [2] := by decide
+
 example : Deliver.ceWrite (.tee [.io true [⟨0, true, false⟩], .io true [⟨1, false, false⟩]]) true =
     [.wrote 0, .wrote 1, .errLine, .term] := by decide
 
